@@ -185,9 +185,9 @@ class FakeSelector:
         if step[0] == 'selerr':
             raise OSError(9, 'simulated selector failure' + HOSTILE)
         _, dt, outcome = step
-        w.clock.t += float(dt)
+        w.clock.t += float(dt) / w.sc.tdiv
         if dt:
-            w.log('T:%d' % int(w.clock.t - 1000.0))
+            w.log('T:%d' % int((w.clock.t - 1000.0) * w.sc.tdiv + 0.5))
         if outcome is None:
             return False, max_bytes
         w.pending_recv = outcome
@@ -225,8 +225,9 @@ class Scenario:
 
     def __init__(self, env, reactions=None, poll=5, prate=30, ptimeout=0, autopong=True,
                  ctimeout=30, conn='ok', wfail=(), compress=False, protocols=(), url='ws://example.com/chat',
-                 key_seed=0, variant='111110', zero=False):
+                 key_seed=0, variant='111110', zero=False, tdiv=1):
         self.env = env
+        self.tdiv = tdiv        # all times of the scenario are in units of 1/tdiv second (tdiv a power of two: float arithmetic stays exact); the model counts units
         self.zero = zero        # a disabled timeout (0) is passed to connect() as 0.0 rather than as None (both mean 'disabled' in lomond's API)
         self.reactions = reactions or {}
         self.poll, self.prate, self.ptimeout = poll, prate, ptimeout
@@ -591,10 +592,10 @@ def _run_one(ws, sc, world, held=None):
     gen = None
     try:
         sess_cls = make_session_class(world)
-        kwargs = dict(session_class=sess_cls, poll=float(sc.poll), ping_rate=float(sc.prate),
-                      ping_timeout=(float(sc.ptimeout) if (sc.ptimeout or sc.zero) else None),
+        kwargs = dict(session_class=sess_cls, poll=float(sc.poll) / sc.tdiv, ping_rate=float(sc.prate) / sc.tdiv,
+                      ping_timeout=(float(sc.ptimeout) / sc.tdiv if (sc.ptimeout or sc.zero) else None),
                       auto_pong=sc.autopong,
-                      close_timeout=(float(sc.ctimeout) if (sc.ctimeout or sc.zero) else None))
+                      close_timeout=(float(sc.ctimeout) / sc.tdiv if (sc.ctimeout or sc.zero) else None))
         idx = 0
         mech = None
         for acts in sc.reactions.values():
